@@ -53,11 +53,19 @@ def run_c14(sc, q, rnd):
                           busy_polls=0, sii8=rnd.random() < 0.5,
                           extra_writes=[dict(word=rnd.choice([last_word, rnd.randint(0x20, last_word)]),
                                              data=[rnd.randint(0, 255) for _ in range(ln)])]))
+    # EepromRange::write with payloads of 0..64 bytes at any word address, windows shorter / longer than the payload
+    for i in range(120 if q else 6000):
+        ln = rnd.choice([0, 1, 2, 3, 4, 5, 7, 8, 9, 63, 64, rnd.randint(0, 64)])
+        start = rnd.choice([0, 4, 0x20, 0x3F, 0x40, 0x3FF, 0x7FFF, 0x8000, 0xFFFE, 0xFFFF, rnd.randint(0, 0xFFFF)])
+        win = rnd.choice([ln, ln, ln, ln + 1, max(0, ln - 1), max(0, ln - 3), ln + 10, 0, 2])
+        cases.append(dict(id=f"rw{i}", op="rangewrite", image=dict(len=0x20000, fill=rnd.choice([0, 0xFF, 0x5A])), window=[start, win],
+                          payload=[rnd.randint(1, 255) for _ in range(ln)], sii8=rnd.random() < 0.5))
     trace = sc.run_cases("alias", cases, binary="vsim2")
     consts_t = dict(RetryBound=20, MaxErrors=0, ErrorAfterBound=True)
     sc.validate("alias", trace, "SiiWriteTrace", consts_t, constraints=(),
-                key_fn=lambda c: (c["case"]["alias"], c["case"].get("write_errors"), c["case"].get("busy_polls"),
-                                  c["result"], tuple(tuple(x) for x in (c.get("changed") or []))),
+                key_fn=lambda c: (c["case"].get("alias"), c["case"].get("write_errors"), c["case"].get("busy_polls"),
+                                  c["result"], tuple(c["case"].get("window", [])), len(c["case"].get("payload", [])),
+                                  tuple(tuple(x) for x in (c.get("changed") or [])[:8])),
                 sample_fn=lambda c: c["result"] == "ok" and c["case"].get("write_errors", 0) > 0)
     return sc.finish(
         "one case = one set_alias_address (plus generic EEPROM writes) on a simulated device with scripted SII behaviour; distinct by "
